@@ -37,6 +37,11 @@ def erase : AMap V → Nat → AMap V
   | [], _ => []
   | (k, w) :: m, x => if x = k then m else (k, w) :: erase m x
 
+/-- `if v, ok := ...; ok { m[k] = v }` -/
+def setOpt (m : AMap V) (k : Nat) : Option V → AMap V
+  | some v => set m k v
+  | none => m
+
 def keys (m : AMap V) : List Nat := m.map (·.1)
 
 /-- strictly increasing keys -/
